@@ -40,6 +40,7 @@ type HarnessResult struct {
 	SolverS    float64             `json:"solver_s"`
 	WallS      float64             `json:"wall_s"`
 	BudgetHit  string              `json:"budget_hit"`
+	ForkSites  map[string]int      `json:"fork_sites"`
 	Funcs      []string            `json:"functions_encoded"`
 	SolverErrs []string            `json:"solver_errors,omitempty"`
 	Terms      int                 `json:"terms"`
@@ -297,6 +298,7 @@ func runHarness(m *interp.Machine, pkg *ssa.Package, fn *ssa.Function, res *Harn
 		}
 	}
 	res.BudgetHit = sh.BudgetHit
+	res.ForkSites = sh.ForkSites
 	funcs := map[string]bool{}
 	for _, ex := range exs {
 		res.Queries += ex.Solver.Queries
